@@ -12,12 +12,13 @@
    The statements are about model/Kalman.v (kf_step, kf_run, likelihood, contributions) on MathComp
    matrices over an arbitrary real field; the same model text, on rationals, is run against irispie's
    kalman_filter by harness/C03.py.  The smoother identities are under C08.
-   Not proved (see MANIFEST / report): that the smoothed moments equal the batch conditional moments
-   given ALL observations. *)
+   Not proved (see MANIFEST / report): that the SMOOTHED moments equal the batch conditional moments
+   given ALL observations, and the batch characterisation of the predicted/updated shock estimates
+   (both are checked numerically by the falsifier on every run). *)
 From mathcomp Require Import all_ssreflect all_algebra.
 From Verif.lib Require Import MatOps MatMC MatLemmas.
 From Verif.model Require Import Kalman.
-From Verif.proofs Require Import KalmanProofs.
+From Verif.proofs Require Import KalmanProofs BatchProofs.
 Set Implicit Arguments.
 Unset Strict Implicit.
 Import GRing.Theory.
@@ -123,6 +124,18 @@ Theorem C03_rescale_variance_no_observations (fs : seq (fper M n nw)) :
   l_var_scale (likelihood true fs) = 1 /\ l_nll (likelihood true fs) = 2%:R^-1 * LD_of fs.
 Proof. exact: rescaled_likelihood_no_obs. Qed.
 
+(* 7. the filter equals batch conditioning (induction over the periods from 1-2): the joint Gaussian law
+      of (alpha_t, Y_t), Y_t = the stacked observations of periods 1..t, is built by push-forward through
+      the transition equation (jpredict) and augmentation by the new observation (jobserve); after ANY
+      number of periods the filter's updated mean and MSE are the conditional mean and covariance of
+      alpha_t given Y_t (`filtered`), and the reported likelihood is the negative log density of Y_t *)
+Theorem C03_filter_is_batch (a : 'cV[F]_n) (Q : 'M[F]_n) (ps : seq (period M n nw)) :
+  is_sym Q -> all_ok ps -> all_unit (krun a Q ps) ->
+  let j := tagged (jrun (j0 a Q) ps) in
+  filtered j (last_state a Q (krun a Q ps)).1 (last_state a Q (krun a Q ps)).2
+  /\ l_nll (likelihood false (krun a Q ps)) = nll_gauss flog flog2pi (j_mY j) (j_CYY j) (j_Y j).
+Proof. exact: filter_is_batch. Qed.
+
 End Likelihood.
 End C03.
 
@@ -138,3 +151,4 @@ Print Assumptions C03_likelihood_closed_form.
 Print Assumptions C03_empty_period_contributes_zero.
 Print Assumptions C03_rescale_variance_law.
 Print Assumptions C03_rescale_variance_no_observations.
+Print Assumptions C03_filter_is_batch.
